@@ -216,7 +216,16 @@ class E3Check:
     def match_known(self, verdict, known):
         for k in known:
             sig = k.get("signature", {})
-            if sig and all(verdict.signature.get(a) == b for a, b in sig.items()):
+            if not sig:
+                continue
+            ok = True
+            for a, b in sig.items():
+                if a == "frames_contains":        # crash findings are identified by the call site: every listed function must be on the crashing stack
+                    if not all(x in verdict.signature.get("frames", "") for x in b):
+                        ok = False
+                elif verdict.signature.get(a) != b:
+                    ok = False
+            if ok:
                 return k
         return None
 
